@@ -32,6 +32,13 @@ def jobs():
 
 # ----------------------------------------------------------------------------- workers
 def _init_worker():
+    import faulthandler, signal
+    faulthandler.register(signal.SIGUSR1, all_threads=True)
+    try:
+        import ctypes
+        ctypes.CDLL('libc.so.6').prctl(1, signal.SIGKILL)   # PR_SET_PDEATHSIG: never outlive the runner
+    except Exception:
+        pass
     from . import bootstrap
     bootstrap.install()
 
